@@ -27,7 +27,8 @@ structure World where
   lastObs  : List (Nat × PeerObs) := []
   /-- C01: entry set (sorted hashes) ↦ canonical state first seen with it -/
   states   : List (List Nat × String) := []
-  syncSrc  : Option (Nat × List Nat) := none     -- source peer's entry hashes at sync time
+  syncSrc  : Option (Nat × List Nat) := none
+  msgHeads : Option (List Nat) := none     -- source peer's entry hashes at sync time
   lineNo   : Nat := 0
   nFail    : Nat := 0
   nObs     : Nat := 0
@@ -294,6 +295,52 @@ def World.onDocGot (w : World) (toks : List String) : World :=
   res.foldl (fun w kv => if KV.get implIdx kv.1 != some kv.2 then
       w.fail "C07" "get" s!"peer {p}: returned document for key {kv.1} differs from the index" else w) w
 
+/-- entries (as an ordered map) reachable from `h` through next and refs among the declared entries:
+the unbounded Fetcher (`length = -1`) with every block available -/
+def World.fetchAll (w : World) (h : Nat) : OMap :=
+  let rec go (fuel : Nat) (frontier acc : List Nat) : List Nat :=
+    match fuel with
+    | 0 => acc
+    | f+1 =>
+      let new := (frontier.filter (fun h => !acc.contains h && (w.entry h).isSome)).eraseDups
+      if new.isEmpty then acc else
+      go f ((w.entriesOf new).flatMap (fun e => e.next ++ e.refs)) (acc ++ new)
+  w.entriesOf (go (w.entries.size + 1) [h] [])
+
+def World.onMsg (w : World) (toks : List String) : World :=
+  if toks.getD 1 "" == "none" then { w with msgHeads := none } else
+  let heads := namesToNums (arg toks "heads")
+  let w := { w with msgHeads := some heads }
+  -- exchange-on-join sends the cached local ++ remote heads
+  if w.pending.headD "" == "exchange" then
+    let p := peerNum (w.pending.getD 1 "")
+    let s := w.store p
+    let model := (s.localHeads.getD []) ++ (s.remoteHeads.getD [])
+    if model != heads then w.fail "corr" "exchange" s!"peer {p}: model sends heads {showNums model}, implementation {showNums heads}" else w
+  else w
+
+def World.onDelivered (w : World) (toks : List String) : World :=
+  let q := peerNum (toks.getD 1 "")
+  let r := toks.getD 2 ""
+  if r == "dropped" || r == "nosub" then w else
+  if arg toks "quiesce" != "true" then w.fail "C11" "quiesce" s!"peer {q} did not become quiescent after a delivered message" else w
+
+def World.onRestarted (w : World) (toks : List String) : World :=
+  let p := peerNum (toks.getD 1 "")
+  let r := toks.getD 2 ""
+  let amount : Int := match w.pending.getD 2 "" with | "" => -1 | a => parseInt a
+  let w := if arg toks "identity" != "true" then w.fail "C05" "identity" s!"peer {p} has a different identity after restart" else w
+  let s := (w.store p).reopened
+  let w := { w with lastObs := w.lastObs.filter (·.1 != p) }
+  match s.load w.acl w.fetchAll amount with
+  | .ok s' =>
+    let w := w.setStore p s'
+    if r != "ok" then w.fail (if amount == -1 then "C05" else "C15") "load" s!"peer {p}: reopening and Load({amount}) failed ({r})" else w
+  | .error e =>
+    let w := w.setStore p s
+    if r == "ok" then w.fail "corr" "load" s!"peer {p}: model Load({amount}) = {e}, implementation ok"
+    else w.fail "C15" "load" s!"peer {p}: Load({amount}) {r} (model: {e})"
+
 def World.step (w : World) (line : String) : World :=
   let w := { w with lineNo := w.lineNo + 1 }
   let toks := fields line
@@ -316,6 +363,9 @@ def World.step (w : World) (line : String) : World :=
   | "result" => w.onResult toks
   | "got" => w.onGot toks
   | "docgot" => w.onDocGot toks
+  | "msg" => w.onMsg toks
+  | "delivered" => w.onDelivered toks
+  | "restarted" => w.onRestarted toks
   | "panic" => w.fail "C12" "panic" (" ".intercalate (toks.drop 1))
   | "end" => { w with out := w.out.push s!"done scn={w.scn} fails={w.nFail} obs={w.nObs} entries={w.entries.size}" }
   | _ => w
